@@ -165,7 +165,7 @@ class QRtruediv(Contract):
     props = ("C03",)
     inv = ("I_D", "I_P", "I_U")
     modifies = _UnitBin.modifies + ("new:Quantity",)
-    types = {"other": NUMS + [("other",)]}
+    types = {"other": NUMS + [T_UNIT, ("other",)]}  # unit / quantity is not supported (TypeError): it must not start yielding something else
 
     def ret(self, a):
         return T_QTY if isinstance(a.other, (VInt, VNum)) else ("notimpl",)
